@@ -294,7 +294,7 @@ def _pw_type(rng, d):
     if c < 0.60:
         return ("O", _pw_type(rng, d - 1))
     if c < 0.85:
-        return ("T", tuple(_pw_type(rng, d - 1) for _ in range(rng.choice([1, 2, 2, 3]))))
+        return ("T", tuple(_pw_type(rng, d - 1) for _ in range(rng.choice([1, 2, 2, 3, 4, 5, 6]))))
     if c < 0.90:
         return ("A", _pw_type(rng, d - 1), rng.choice([1, 2, 3]))
     return rng.choice(leaves)
